@@ -375,7 +375,7 @@ def duplicates(codebase: CodeBase, stream: TextIO = sys.stdout):
 
     for i, matches in enumerate(confirmed_matches):
         print(f"Match {i}:", file=stream)
-        for path in matches:
+        for path in sorted(matches):
             print(f"- {path}")
         if i != len(confirmed_matches) - 1:
             print("")
